@@ -1,7 +1,7 @@
 SPECIFICATION Spec
 CONSTANTS
   MaxLen = 5
-  Dev = {}
+  Dev = {"IgnoreCase"}
 INVARIANT FieldInclusion
 INVARIANT TypeInclusion
 INVARIANT FieldComplete
